@@ -233,10 +233,118 @@ def check_late_registration(case):
     return fails
 
 
+# ---- a refused addition leaves the store as it was ------------------------------------------------------------------
+ATOMIC_JUNK = [None, 0, 1.5, True, "junk", "", [], [1], ["2020-01-01T00:00:00.000Z"], {}, {"a": 1}]
+ATOMIC_BASES = {
+    # kept as a dictionary (unregistered type; the stores' allow_custom default admits it)
+    "unregistered": {"type": "x-verif-c17unreg", "spec_version": "2.1", "id": "x-verif-c17unreg--3f2504e0-4f89-41d3-9a0c-0305e82c3301",
+                     "created": "2020-01-01T00:00:00.000Z", "modified": "2020-01-02T00:00:00.000Z", "name": "n"},
+    "unregistered-unversioned": {"type": "x-verif-c17unreg", "spec_version": "2.1", "id": "x-verif-c17unreg--3f2504e0-4f89-41d3-9a0c-0305e82c3301", "name": "n"},
+    "registered": {"type": "identity", "spec_version": "2.1", "id": "identity--3f2504e0-4f89-41d3-9a0c-0305e82c3301", "created": "2020-01-01T00:00:00.000Z",
+                   "modified": "2020-01-02T00:00:00.000Z", "name": "n"},
+    "custom-content": {"type": "identity", "spec_version": "2.1", "id": "identity--3f2504e0-4f89-41d3-9a0c-0305e82c3301", "created": "2020-01-01T00:00:00.000Z",
+                       "modified": "2020-01-02T00:00:00.000Z", "name": "n", "x_foo": 1},
+}
+ATOMIC_STORES = ["memory-store", "memory-sink", "fs-sink", "fs-sink-bundlify", "fs-sink-strict", "fs-sink-strict-bundlify"]
+
+
+def atomic_cases():
+    out = []
+    for store in ATOMIC_STORES:
+        for base in ATOMIC_BASES:
+            for pre in (False, True):
+                for form in ("dict", "object"):
+                    if form == "object" and base != "custom-content":
+                        continue
+                    out.append({"atomic": {"store": store, "base": base, "prop": None, "junk": None, "pre": pre, "form": form}, "entry": "store-add"})
+                    if form == "object":
+                        continue
+                    for prop in ("modified", "id", "type", "created"):
+                        if prop not in ATOMIC_BASES[base]:
+                            continue
+                        for j in list(range(len(ATOMIC_JUNK))) + ["absent"]:
+                            out.append({"atomic": {"store": store, "base": base, "prop": prop, "junk": j, "pre": pre, "form": form}, "entry": "store-add"})
+    return out
+
+
+def _store_state(store, root):
+    """Everything the store holds, including what its query interface does not show (an entry without versions)."""
+    import os
+    if root is not None:
+        state = {}
+        for r, ds, fs in os.walk(root):
+            state[os.path.relpath(r, root)] = sorted(fs)
+            for f in fs:
+                with open(os.path.join(r, f), "rb") as fh:
+                    state[os.path.relpath(os.path.join(r, f), root)] = fh.read().decode("utf-8", "replace")
+        return state
+    state = {}
+    for k, v in store._data.items():
+        if hasattr(v, "all_versions"):
+            state[repr(k)] = sorted((repr(m), json.dumps(o if isinstance(o, dict) else json.loads(o.serialize()), sort_keys=True, default=repr)) for m, o in v.all_versions.items())
+            state[repr(k) + "/latest"] = None if v.latest_version is None else repr(v.latest_version["modified"])
+        else:
+            state[repr(k)] = json.dumps(v if isinstance(v, dict) else json.loads(v.serialize()), sort_keys=True, default=repr)
+    return state
+
+
+def check_store_atomicity(case):
+    import copy
+    import shutil
+    import tempfile
+    import stix2
+    a = case["atomic"]
+    doc = copy.deepcopy(ATOMIC_BASES[a["base"]])
+    if a["prop"] is not None:
+        if a["junk"] == "absent":
+            doc.pop(a["prop"], None)
+        else:
+            doc[a["prop"]] = copy.deepcopy(ATOMIC_JUNK[a["junk"]])
+    tmp = tempfile.mkdtemp(prefix="c17-store-") if a["store"].startswith("fs") else None
+    try:
+        if a["store"] == "memory-store":
+            store = stix2.MemoryStore()
+        elif a["store"] == "memory-sink":
+            store = stix2.MemorySink()
+        else:
+            store = stix2.FileSystemSink(tmp, allow_custom="strict" not in a["store"], bundlify="bundlify" in a["store"])
+        if a["pre"]:
+            # an earlier, valid version of the same object is already there
+            earlier = copy.deepcopy(ATOMIC_BASES["registered" if a["base"] == "custom-content" else a["base"]])
+            if "modified" in earlier:
+                earlier["modified"] = "2020-01-01T12:00:00.000Z"
+            _, exc0 = core.guarded(store.add, earlier)
+            if exc0 is not None:
+                return None
+        payload = doc
+        if a["form"] == "object":
+            payload, exc0 = core.guarded(stix2.parse, doc, allow_custom=True)
+            if exc0 is not None:
+                return None
+        before = _store_state(store, tmp)
+        try:
+            _, exc = with_watchdog(lambda: core.guarded(store.add, payload))
+        except _Timeout:
+            return [("no-termination-within-60s", "%s.add(%s)" % (a["store"], core.short(doc, 200)))]
+        if exc is None:
+            return []
+        after = _store_state(store, tmp)
+        if after != before:
+            changed = sorted(set(k for k in set(before) | set(after) if before.get(k) != after.get(k)))
+            return [("store-changed-by-failed-add:%s" % a["store"].split("-")[0], "%s.add(%s) raised %s and left the store changed at %s" % (
+                a["store"], core.short(doc, 250), core.fmt_exc(exc), core.short(changed, 200)))]
+        return []
+    finally:
+        if tmp:
+            shutil.rmtree(tmp, ignore_errors=True)
+
+
 def check_case(case):
     ensure_custom()
     if "late" in case:
         return check_late_registration(case)
+    if "atomic" in case:
+        return check_store_atomicity(case)
     ver = case.get("ver", "2.1")
     entry = case["entry"]
     if "nest" in case:
@@ -645,6 +753,16 @@ def run(ctx):
                             fails = check_case(case)
                             ctx.note(case, True, ["nesting:%d" % depth, "nest-input:constructor", "nest-site:%s/%s" % (host, where)])
                             ctx.handle(case, fails or [])
+    # a refused addition leaves the store as it was (finite catalogue: store kind x holder x corrupted property x junk kind x earlier version)
+    for case in atomic_cases() if ctx.worker in (None, 0) else []:
+        fails = check_case(case)
+        if fails is None:
+            ctx.exclude("store-precondition-not-met")
+            continue
+        a = case["atomic"]
+        ctx.note(case, a["prop"] is not None or a["form"] == "object", ["store-add:" + a["store"], "store-add-holder:" + a["base"], "store-add-earlier-version:%s" % a["pre"]])
+        ctx.handle(case, fails)
+
     # the same sites on a fine grid of depths around the interpreter's recursion limit, each depth in interpreters of their own: near the
     # limit a failure may be one the process does not survive (a stack overflow while a RecursionError is being handled, or while a
     # deep chain of suspended generators is abandoned), which no in-process observation can report
